@@ -201,11 +201,25 @@ class ScopeGen:
     def for_stmt(self, ind, depth, live):
         r = self.r
         name = r.choice(NAMES)
+        # half of the time the loop variable shadows a visible int that the iterable itself uses:
+        # inside the iterable the name still means the enclosing binding
+        outer_ints = [n for n, x in self.visible_names().items() if x.kind != "fn" and x.ty == "int" and x.val.isdigit()]
+        if outer_ints and r.chance(50):
+            name = r.choice(outer_ints)
+        prev = self.lookup(name)
         s1, v1 = self.fresh_val("int")
         d = Decl(name, "int", v1, "for")
         self.w(ind + "for ")
         self.emit_decl_name(d)
-        self.w(" in [%s] {\n" % s1)
+        if prev is not None and prev.kind != "fn" and prev.ty == "int" and prev.val.isdigit() and r.chance(70):
+            self.features.add("iterable-uses-shadowed-name")
+            self.w(" in [")
+            lo = self.pos
+            self.w(name)
+            self.uses.append((lo, self.pos, prev, None))
+            self.w(" - %s + %s] {\n" % (prev.val, s1))
+        else:
+            self.w(" in [%s] {\n" % s1)
         self.scopes.append({name: d})
         self.decls.append(d)
         self.scopes.append({})
@@ -220,7 +234,17 @@ class ScopeGen:
         n1, n2 = r.sample(NAMES, 2)
         s1, v1 = self.fresh_val("int")
         s2, v2 = self.fresh_val("int")
-        self.w("%smatch (%s, %s) {\n" % (ind, s1, s2))
+        prev = self.lookup(n2)
+        if prev is not None and prev.kind != "fn" and prev.ty == "int" and prev.val.isdigit() and r.chance(60):
+            # the scrutinee uses a name that the matching arm rebinds: there it is the enclosing binding
+            self.features.add("scrutinee-uses-shadowed-name")
+            self.w("%smatch (" % ind)
+            lo = self.pos
+            self.w(n2)
+            self.uses.append((lo, self.pos, prev, None))
+            self.w(" - %s + %s, %s) {\n" % (prev.val, s1, s2))
+        else:
+            self.w("%smatch (%s, %s) {\n" % (ind, s1, s2))
         # first arm binds n1 but never matches (literal 0 in second position); later arms must not see n1
         d0 = Decl(n1, "int", "<unreachable>", "match")
         self.w(ind + "  (")
